@@ -125,7 +125,67 @@ func TestVerifNumDigitsEstimate(t *testing.T) {
 		}
 		cases++
 	}
-	fmt.Printf("BOUNDED name=numdigits-float-estimate bound=bitlen129..700000 cases=%d exact_fallbacks=%d ok\n", cases, slow)
+	// Beyond the exhaustive range the estimate is most at risk where bl/log2(10) is closest to an integer, i.e. where
+	// bl is the numerator of a convergent or semiconvergent of log2(10). Those bit lengths (and their neighbours) are
+	// checked up to 2^40 against a 300-bit value of log2(10): (n-1)*L <= bl-1 and bl <= (n+1)*L.
+	L := func() *big.Float {
+		// log2(10) = 3 + log2(1.25): computed as ln(10)/ln(2) by series with 320 bits
+		prec := uint(320)
+		ln := func(x float64) *big.Float { // ln(x) for x in {2, 10} via atanh series: ln(x) = 2*atanh((x-1)/(x+1))
+			y := new(big.Float).SetPrec(prec).Quo(new(big.Float).SetPrec(prec).SetFloat64(x-1), new(big.Float).SetPrec(prec).SetFloat64(x+1))
+			y2 := new(big.Float).SetPrec(prec).Mul(y, y)
+			sum := new(big.Float).SetPrec(prec)
+			term := new(big.Float).SetPrec(prec).Set(y)
+			for k := int64(1); k < 4000; k += 2 {
+				sum.Add(sum, new(big.Float).SetPrec(prec).Quo(term, new(big.Float).SetPrec(prec).SetInt64(k)))
+				term.Mul(term, y2)
+			}
+			return sum.Mul(sum, new(big.Float).SetPrec(prec).SetInt64(2))
+		}
+		return new(big.Float).SetPrec(prec).Quo(ln(10), ln(2))
+	}()
+	if f, _ := L.Float64(); f < 3.3219280948873 || f > 3.3219280948874 {
+		t.Fatalf("log2(10) computed as %v", f)
+	}
+	// continued fraction of L
+	var cf []int64
+	x := new(big.Float).SetPrec(320).Set(L)
+	for i := 0; i < 30; i++ {
+		ai, _ := x.Int64()
+		cf = append(cf, ai)
+		fr := new(big.Float).SetPrec(320).Sub(x, new(big.Float).SetPrec(320).SetInt64(ai))
+		if fr.Sign() == 0 {
+			break
+		}
+		x = new(big.Float).SetPrec(320).Quo(new(big.Float).SetPrec(320).SetInt64(1), fr)
+	}
+	h0, h1 := int64(1), cf[0]
+	near := 0
+	for _, ai := range cf[1:] {
+		for tt := int64(1); tt <= ai; tt++ {
+			pnum := tt*h1 + h0
+			if pnum > 1<<40 {
+				break
+			}
+			for bl := pnum - 2; bl <= pnum+2; bl++ {
+				if bl < 129 {
+					continue
+				}
+				n := int64(float64(bl) / digitsToBitsRatio)
+				lhs := new(big.Float).SetPrec(320).Mul(new(big.Float).SetPrec(320).SetInt64(n-1), L)
+				rhs := new(big.Float).SetPrec(320).Mul(new(big.Float).SetPrec(320).SetInt64(n+1), L)
+				if lhs.Cmp(new(big.Float).SetPrec(320).SetInt64(bl-1)) > 0 || rhs.Cmp(new(big.Float).SetPrec(320).SetInt64(bl)) < 0 {
+					t.Fatalf("estimate lemma fails near a convergent: bl=%d n=%d", bl, n)
+				}
+				near++
+			}
+		}
+		if ai*h1+h0 > 1<<40 {
+			break
+		}
+		h0, h1 = h1, ai*h1+h0
+	}
+	fmt.Printf("BOUNDED name=numdigits-float-estimate bound=bitlen129..700000+convergents_to_2^40 cases=%d exact_fallbacks=%d near_convergent=%d ok\n", cases, slow, near)
 }
 
 func TestVerifBigIntBridge(t *testing.T) {
